@@ -18,8 +18,8 @@ the code (shuffled JSON keys, repeated calls).  Proved here, for **all** models:
 
 Not proved: `strip (print true m) = print false m` (comment inertness) — a string-level statement about the
 first " #" of every line; it is checked by the oracle on the real code on every run, together with "both
-parse to the same model".  Its excluded point (a module/file name containing a newline) is the open finding
-KF-C14-newline-in-source-name.
+parse to the same model".  Its former excluded point (a module/file name containing a line break) was
+repaired in /repo (the comment writes a blank for it; `Printer.oneLine`).
 -/
 namespace FgaVerif.Props.C14
 open FgaVerif FgaVerif.Model FgaVerif.Model.Printer
